@@ -196,7 +196,8 @@ def run(ctx, pid, phases, title, extra_tb, rule):
     cov["checker_cmd"] += " && translator/ -> Gen/LockSkel.v && coqc Gen/Obligations.v"
     cov.update(dict(
         evaluations=stats["ops_total"],
-        distinct_nontrivial=stats["ops_checked"],
+        distinct_nontrivial=len(stats["nontrivial"]),
+        ops_in_decided_components=stats["ops_checked"],
         rule=rule,
         samples=samples or ["(none)"],
         executors_translated=len(tr["report"]),
